@@ -324,7 +324,10 @@ def prop_c08ck(k, ck, pos, d):
     want = p[:pos] + c + p[pos + 10:]
     if inner != want:
         return f"FAIL wrapped plaintext {inner.hex()} != payload with the customer key in its slot {want.hex()}"
-    back = SoftwareCustKeyEncryptor(key, c, pos).decrypt(ct)
+    try:
+        back = SoftwareCustKeyEncryptor(key, c, pos).decrypt(ct)
+    except Exception as ex:
+        return f"FAIL unwrap of the wrapper's own output raises {type(ex).__name__}: {ex}"
     if back != p[:pos] + bytes(10) + p[pos + 10:]:
         return f"FAIL unwrap returns {back.hex()} (slot not blanked or payload changed)"
     # the same objects used again
@@ -818,11 +821,16 @@ def prop_c07unknown(k, bs, es, ephs, ephs2, keep):
     """blocks without a matching decryptor are kept byte for byte when the file is written again"""
     key = unhx(k)
     wencs = parse_encs(es)
+    blist = parse_blocks(bs)
+    if key[3] % 2:
+        # a block of a kind this version does not know at all (a tag outside the class map), anywhere in the header
+        blist.insert(key[4] % (len(blist) + 1), UnknownAuthBlock([0x04, 0x7F, 0xFE, 0x10][key[5] % 4], bytes(key[6:6 + key[7] % 9]) * 3))
     with Oracle(parse_nats(ephs)):
-        f0 = Bec2File(Bf3File(), parse_blocks(bs), key)
+        f0 = Bec2File(Bf3File(), blist, key)
         a = f0.to_binary(wencs)
     blocks = list(f0.auth_blocks.values())
-    keep = int(keep) % len(blocks)
+    opened = [i for i, b in enumerate(blocks) if not isinstance(b, UnknownAuthBlock)]
+    keep = opened[int(keep) % len(opened)]
     dec = _matching_decryptor(blocks[keep], wencs)
     # second reading list: the decryptor of one block, followed by the writer's encrypt-only encryptors (public ECC keys):
     # they match other blocks but cannot open them, so those blocks still have no decryptor
